@@ -1,6 +1,66 @@
 """C15: every line sent to clients is a single well-formed IRC line."""
+import os
 import re
+import random
+import json
 import irc_check
+import vlib
+
+API_HARNESS = {"zz_verif_resume_test.go": os.path.join(vlib.ROOT, "harness", "api", "zz_verif_resume_test.go")}
+SEPS = ["\r", "\n", "\x00"]
+ALPHA = list("abcXYZ 019:#!@,*") + ["\u00e9", "\u20ac", "\U0001f600", "\x01", "\x7f", "\t"]
+
+
+def gen_text(rng):
+    """text as a client may post it: clean, cut somewhere, separators only, separators beyond byte 512, ..."""
+    k = rng.randrange(10)
+    n = rng.choice([0, 1, 2, 5, 20, 80, 300, 600, 1500]) if k < 8 else rng.randrange(0, 40)
+    body = [rng.choice(ALPHA) for _ in range(n)]
+    if k in (0, 1):
+        pass                                      # clean text: must come back unchanged
+    elif k == 2:
+        body = [rng.choice(SEPS) for _ in range(rng.randrange(1, 4))] + body     # separator first
+    elif k == 3:
+        body = body + [rng.choice(SEPS)]                                        # separator last
+    else:
+        for _ in range(rng.randrange(1, 4)):
+            body.insert(rng.randrange(0, len(body) + 1), rng.choice(SEPS))
+    return "".join(body)
+
+
+def firstline_stage(run):
+    """the real firstLine helper of the POST/DELETE handlers against the model's `firstLine` (which the theorems
+    C15_firstLine_clean / C15_api_entry_clean are about), and the cut judged on the real output alone"""
+    ok, exe, out = vlib.build_harness("api_resume", "internal/api", API_HARNESS)
+    if not ok:
+        return ("harness", "api harness does not build: " + out[-300:], []), 0, False
+    n = 1500 if run.tier == "quick" else 40000
+    rng = random.Random(run.seed * 7919 + 15)        # its own stream: the histories below do not depend on this stage
+    texts = ["", "\r", "a\rb", "a\nb", "a\x00b", "PRIVMSG #c :hi\rQUIT", "x" * 600 + "\r\nQUIT", "\u00e9\n\u00e9"] + [gen_text(rng) for _ in range(n)]
+    ops = ["firstline " + (t.encode().hex() or "-") for t in texts]
+    gl, ll, di, err = vlib.differential(run, "firstline", ops, exe, "resume", harness_run="TestVerifResume")
+    corr_ok = di is None and err is None and len(gl) == len(ops)
+    bad = None
+    cut = 0
+    for t, g in zip(texts, gl):
+        try:
+            o = bytes.fromhex("" if g == "-" else g)
+        except ValueError:
+            bad = bad or ("firstline:harness", "firstline op answered %r" % g[:80], t)
+            continue
+        if o != t.encode():
+            cut += 1
+        if any(c in o for c in (10, 13, 0)) and bad is None:
+            bad = ("firstline:control", "firstLine(%r) = %r still contains CR/LF/NUL: the text becomes the data of a log entry and is relayed to clients" % (t[:80], o[:80]), t)
+        elif not t.encode().startswith(o) and bad is None:
+            bad = ("firstline:notprefix", "firstLine(%r) = %r is not a prefix of the posted text" % (t[:80], o[:80]), t)
+        elif not any(c in t for c in "\r\n\x00") and o != t.encode() and bad is None:
+            bad = ("firstline:cutclean", "firstLine(%r) = %r: a text without CR/LF/NUL was changed" % (t[:80], o[:80]), t)
+    detail = err or ""
+    if di is not None:
+        detail += " first difference at `%s`: go=%s lean=%s" % (ops[di][:120], gl[di][:120] if di < len(gl) else "<missing>", ll[di][:120] if di < len(ll) else "<missing>")
+    run.obligation("correspondence: real firstLine == Lean `firstLine` on %d posted texts (%d of them cut)" % (len(ops), cut), corr_ok, detail)
+    return bad, len(ops), corr_ok
 
 CMD_RE = re.compile(rb"^(?::[^ \x00\r\n]* )?([A-Za-z]+|[0-9]{3})(?: |$)")
 
@@ -34,9 +94,25 @@ def oracle(h, g, l):
 
 def check(run):
     n, L = (300, 120) if run.tier == "quick" else (8000, 300)
+    bad, nfl, corr_ok = firstline_stage(run)
+    run.api_label = "the real firstLine cut judged on its own output over %d texts: no CR/LF/NUL left, a prefix of the text, clean text unchanged" % nfl
+    run.api_exp = (bad[0], bad[1], ["firstline " + (bad[2].encode().hex() or "-")] if bad[0] != "firstline:harness" or bad[2] else []) if bad else None
     return irc_check.run_property(run, oracle, n, L,
         rule="random histories whose client text is cut at CR/LF/NUL as the HTTP API does (long, non-ASCII, control-character, leading-colon texts in every parameter position); every output line of every entry is checked: <= 510 bytes, no CR/LF/NUL, [':'prefix' '] command; non-trivial = history > 5 ops; distinct by op list")
 
 
 def replay(run, path):
+    r = json.load(open(path))
+    ops = r.get("replay", {}).get("ops", [])
+    if ops and ops[0].startswith("firstline "):
+        ok, exe, out = vlib.build_harness("api_resume", "internal/api", API_HARNESS)
+        gl, ll, di, err = vlib.differential(run, "replay", ops, exe, "resume", harness_run="TestVerifResume")
+        rc = 0
+        for o, g, l in zip(ops, gl, ll):
+            t = bytes.fromhex(o.split()[1].replace("-", ""))
+            go = bytes.fromhex(g.replace("-", "")) if re.fullmatch(r"[0-9a-f-]*", g) else g.encode()
+            print("firstLine(%r)\n    go:   %r\n    lean: %s" % (t, go, l))
+            if any(c in go for c in (10, 13, 0)) or not t.startswith(go) or (not any(c in t for c in (10, 13, 0)) and go != t):
+                rc = 1
+        return rc
     return irc_check.replay(run, path, oracle)
